@@ -168,12 +168,12 @@ PROPS.update({
 
 
 PROPS.update({
-    "C16": {"modules": ["Carapace.Props.C16"], "ops": [("files", {"quick": 3000, "thorough": 150000})],
+    "C16": {"modules": ["Carapace.Props.C16", "Carapace.Props.C16Exact"], "ops": [("files", {"quick": 3000, "thorough": 150000})],
             "rule": "random trees (1-5 directories nested up to 3 deep, 0-7 files, 0-3 symlinks to directories / files / nowhere / `.` / `..` with absolute and relative targets; names with blanks, quotes, non-ASCII text, leading dots and dashes) materialised in a scratch directory; Context directory anywhere in the tree, process working directory elsewhere; typed paths: prefixes of existing paths, `./`, `../`, absolute, `~/`, trailing slash, dot segments, 8% unclean forms; ActionFiles with suffix filters / ActionDirectories; 15% wrapped in Chdir (relative, absolute, non-existent, a file); non-trivial = the denoted directory is readable; distinct = distinct input digest",
             "assumptions": ["the file system is read by the harness with os.ReadDir / Lstat / Stat of the directory the typed path denotes (OS path resolution is not modelled); path/filepath's lexical functions are modelled (dependency)",
                             "unreadable (mode 000) directories cannot be produced as root in this sandbox; non-existent directories are", "`~user` forms and Windows volume prefixes are outside the generator"],
             "claimed": True, "engine": "fs",
-            "level_text": ("Theorems about the listing logic of the model: `C16_entry_shape` (every candidate is the display folder, the entry name and `/` for a directory), `C16_entry_hidden`, `C16_entry_dir` (directories and links to directories with a trailing `/` whatever the filter), `C16_entry_file` (regular files only for ActionFiles and only with an allowed suffix), `C16_spec_hidden`; the cleaning of the typed directory part is a decided counterexample against the independent listing specification and a listed finding; the MultiParts stage is C11. "
+            "level_text": ("`C16_exact` (C16Exact.lean): for every clean typed path - any number of directory segments that are non-empty, not `.` / `..`, and a last partial segment free of `/` other than `.` / `..` (the empty path and a trailing `/` included) -, every Context directory, every directory listing, filter and suffix list, the values the model of `actionPath` yields that continue the typed text are exactly the listing specification (the entries whose names continue the typed last segment, each as the typed directory part, unchanged, followed by the name); `C16_values_clean` gives the values entry by entry; through `pathClean_plain` (a clean relative path is its own filepath.Clean), `pathDir_typed`, `displayFolder_typed` (what precedes every name is the typed directory part), `showHidden_typed` (dot-entries are shown iff the typed last segment starts with a dot, whatever the Context directory or the typed directories are called: the base name of `filepath.Abs(dir/typed)` is that segment - `clean_ends`, `base_of_ends`). The typed paths the hypotheses exclude are exactly the listed finding files_unclean_dir_part. Theorems about the listing logic of the model: `C16_entry_shape` (every candidate is the display folder, the entry name and `/` for a directory), `C16_entry_hidden`, `C16_entry_dir` (directories and links to directories with a trailing `/` whatever the filter), `C16_entry_file` (regular files only for ActionFiles and only with an allowed suffix), `C16_spec_hidden`; the cleaning of the typed directory part is a decided counterexample against the independent listing specification and a listed finding; the MultiParts stage is C11. "
                            "Correspondence: the model (lexical path functions + listing + MultiParts) is compared exactly with the real ActionFiles / ActionDirectories / Chdir on generated trees; oracle on the real result: set equality with `Spec.listing` of the directory the typed path denotes relative to the Context directory (never the process directory), no-space for directories, a message and no values for unreadable directories and invalid Chdir targets."),
             "level_note": "Trusted: Lean kernel + propext/Classical.choice/Quot.sound; the OS (the harness reads the denoted directory itself); the harness and generators. Modelled, not verified: internalActions.go actionPath, context.go Abs, path/filepath Clean/Dir/Base, MultiParts - bound by exact comparison on generated trees."},
 })
